@@ -75,7 +75,7 @@ def sys_list(n, defs, sys_id, field):
     if ms:
         return False
     fp = field_path(base)
-    if fp and fp[1] == sys_id and fp[2] == [field]:
+    if fp and fp[1] is not None and sys_id is not None and canon(fp[1]) == canon(sys_id) and fp[2] == [field]:
         return True
     if base.get("k") == "local":
         init = simple_let_init(defs, base["id"])
